@@ -58,6 +58,7 @@ Section Check.
   | WLocal (di : nat) (c : call) (o : obs) (view : val) (size : Z)
   | WTx (di : nat) (tag : str) (cs : list call) (fail : bool) (os : list obs) (view : val) (size : Z)
   | WSync (di : nat) (f : fault) (req resp : ppp) (g : dbdig) (pubs : list publish) (a : aobs)
+  | WSyncRpc (di : nat) (f : fault) (req : ppp) (rpc : N) (g : dbdig)                 (* the exchange ended in an RPC error *)
   | WApply (di : nat) (resp : ppp) (a : aobs)                                    (* a held-back or second response is applied *)
   | WRaw (col cuid : str) (req resp : ppp) (g : dbdig) (pubs : list publish)     (* a mutated request, response not applied *)
   | WRawErr (col cuid : str) (req : ppp) (rpc : N) (g : dbdig).                  (* refused by ProcessPushPull itself *)
@@ -70,7 +71,7 @@ Section Check.
   Definition mode_state (m : N) : dstate :=
     match m with 0 => DueToCreate | 1 => DueToSubscribe | _ => DueToSubscribeCreate end.
 
-  Definition rpc_code (e : rpc_err) : N := match e with NoCollection => 0 | NoClient => 1 | NoPermission => 2 end.
+  Definition rpc_code (e : rpc_err) : N := match e with NoCollection => 0 | NoClient => 1 | NoPermission => 2 | DbError => 3 end.
 
   Definition to_obs' (o : outcome ret) : obs :=
     match o with Done r => OOk (k_res r) | Failed => OFail | Panicked => OPanic end.
@@ -113,6 +114,16 @@ Section Check.
             | XOk db' mresp mpubs w' ap =>
                 if ppp_eqb mresp resp && db_matches db' g && list_eqb pub_eqb mpubs pubs && aobs_ok w' ap a
                 then Some (set_dt (mkWsys db' (ws_dts s)) di (col, cuid, w')) else None
+            | _ => None
+            end
+        | None => None
+        end
+    | WSyncRpc di f req rpc g =>
+        match nth_error (ws_dts s) di with
+        | Some (col, cuid, w) =>
+            if negb (ppp_eqb (mkpack St call J k_type w) req) then None else
+            match exchange St call J k_init k_remote k_export k_type (ws_db s) col cuid w f with
+            | XRpc db' e => if N.eqb (rpc_code e) rpc && db_matches db' g then Some (mkWsys db' (ws_dts s)) else None
             | _ => None
             end
         | None => None
@@ -188,6 +199,7 @@ Arguments WTx {call}.
 Arguments WSync {call}.
 Arguments WRaw {call}.
 Arguments WApply {call}.
+Arguments WSyncRpc {call}.
 Arguments WRawErr {call}.
 
 Definition check_wire_counter : list (wev ccall) -> bool :=
